@@ -92,7 +92,14 @@ def inventory(tree):
                 for k in n.keywords:
                     if k.arg and k.arg not in call_kw.setdefault(nm, []):
                         call_kw[nm].append(k.arg)
-    return {"functions": sorted(set(funcs)), "globals": sorted(set(globs)), "literal_loops": loops, "private_params": params,
+    tuple_assigns = {}
+    for q, fn in _iter_funcs(tree):
+        ts = [ast.unparse(st.targets[0]) for st in ast.walk(fn) if isinstance(st, ast.Assign) and len(st.targets) == 1
+              and isinstance(st.targets[0], (ast.Tuple, ast.List)) and isinstance(st.value, (ast.Tuple, ast.List))]
+        if ts:
+            tuple_assigns[q] = ts
+    return {"tuple_assigns": tuple_assigns,
+            "functions": sorted(set(funcs)), "globals": sorted(set(globs)), "literal_loops": loops, "private_params": params,
             "call_positional": call_pos, "call_keywords": {k: sorted(v) for k, v in call_kw.items()}, "literal_comps": comps, "dict_comps": dict_comps}
 
 
@@ -139,8 +146,8 @@ def positionalise_new_keywords(tree, call_pos, signatures, call_kw=None):
     moved back into their positions.  Pure spelling: Python binds the same parameter either way."""
     n_done = 0
     for c in ast.walk(tree):
-        if not isinstance(c, ast.Call) or not c.keywords or any(isinstance(a, ast.Starred) for a in c.args) or any(k.arg is None for k in c.keywords):
-            continue
+        if not isinstance(c, ast.Call) or not c.keywords or any(isinstance(a, ast.Starred) for a in c.args):
+            continue       # (`**kwargs` does not matter: a name given twice is refused in either spelling)
         nm = _callee_name(c)
         if nm is None:
             continue
@@ -161,6 +168,29 @@ def positionalise_new_keywords(tree, call_pos, signatures, call_kw=None):
             moved = True
         n_done += moved
     return n_done
+
+
+def drop_default_keywords(tree, defaults, call_kw=None):
+    """undo 'spell out the default': `f(x, flag=False)` where False IS the callee's default for `flag` (literal defaults of the
+    repository's own callables, by unambiguous name) and the reference never passes that keyword to this callee -> `f(x)`"""
+    n = 0
+    for c in ast.walk(tree):
+        if not isinstance(c, ast.Call) or not c.keywords:
+            continue
+        nm = _callee_name(c)
+        if nm is None:
+            continue
+        d = defaults.get(nm) or defaults.get(nm.lstrip("."))
+        if not d:
+            continue
+        keep = []
+        for k in c.keywords:
+            if k.arg is not None and k.arg in d and ast.unparse(k.value) == d[k.arg]:
+                n += 1
+                continue
+            keep.append(k)
+        c.keywords = keep
+    return n
 
 
 def _loop_fingerprint(st):
@@ -395,11 +425,20 @@ def _bound_in_other_class(tree, cnode, name):
 def propagate_new_constants(tree, ref_globals, rel=None):
     consts = {}
     counts = {}
+    # names of the reference's own module constants (bound once, to a literal such as `_a = slice(6, 15)`): a new table may list them
+    scope_counts = _scope_binding_counts(tree.body)
+    stable = {st.targets[0].id for st in tree.body if isinstance(st, ast.Assign) and len(st.targets) == 1 and isinstance(st.targets[0], ast.Name)
+              and st.targets[0].id in ref_globals and scope_counts.get(st.targets[0].id) == 1 and _is_literal(st.value)}
+    stable -= {nm_ for x in ast.walk(tree) if isinstance(x, ast.Global) for nm_ in x.names}
+
+    def table_of_constants(e):
+        return isinstance(e, (ast.Tuple, ast.List)) and e.elts and all(
+            _is_literal(x) or isinstance(x, ast.Name) and x.id in stable or table_of_constants(x) for x in e.elts) and isinstance(e, ast.Tuple)
     for st in tree.body:
         if isinstance(st, ast.Assign) and len(st.targets) == 1 and isinstance(st.targets[0], ast.Name):
             nm = st.targets[0].id
             counts[nm] = counts.get(nm, 0) + 1
-            if nm not in ref_globals and _is_literal(st.value):
+            if nm not in ref_globals and (_is_literal(st.value) or table_of_constants(st.value)):
                 consts[nm] = st.value
     # the binding must be the only one in force: one store of the name in the whole module scope (also inside module-level
     # if/for/try/with, augmented assignments, imports, defs) and no function declares it `global`
@@ -511,6 +550,11 @@ class _Getattr(ast.NodeTransformer):
         if isinstance(n.func, ast.Name) and n.func.id == "getattr" and len(n.args) == 2 and not n.keywords \
                 and isinstance(n.args[1], ast.Constant) and isinstance(n.args[1].value, str) and n.args[1].value.isidentifier():
             return ast.copy_location(ast.Attribute(value=n.args[0], attr=n.args[1].value, ctx=ast.Load()), n)
+        # max((a, b, c)) -> max(a, b, c)   (one literal collection of at least two items: the same comparison sequence)
+        if isinstance(n.func, ast.Name) and n.func.id in ("max", "min") and len(n.args) == 1 and not n.keywords \
+                and isinstance(n.args[0], (ast.Tuple, ast.List)) and len(n.args[0].elts) >= 2 \
+                and not any(isinstance(x, ast.Starred) for x in n.args[0].elts):
+            n.args = list(n.args[0].elts)
         # f(*(a, b)) -> f(a, b);  f(**{"k": v}) -> f(k=v)      (literal collections only)
         if any(isinstance(a, ast.Starred) and isinstance(a.value, (ast.Tuple, ast.List)) for a in n.args):
             new_args = []
@@ -560,9 +604,13 @@ def _literal_iter(st):
     items = None
     if isinstance(it, (ast.Tuple, ast.List)):
         items = list(it.elts)
-    elif isinstance(it, ast.Call) and isinstance(it.func, ast.Name) and it.func.id == "enumerate" and len(it.args) == 1 \
-            and isinstance(it.args[0], (ast.Tuple, ast.List)):
-        items = [ast.Tuple(elts=[ast.Constant(k), e], ctx=ast.Load()) for k, e in enumerate(it.args[0].elts)]
+    elif isinstance(it, ast.Call) and isinstance(it.func, ast.Name) and it.func.id == "enumerate" and 1 <= len(it.args) <= 2 \
+            and isinstance(it.args[0], (ast.Tuple, ast.List)) and all(k.arg == "start" for k in it.keywords) \
+            and len(it.args) + len(it.keywords) <= 2:
+        start = it.args[1] if len(it.args) == 2 else (it.keywords[0].value if it.keywords else ast.Constant(0))
+        if not (isinstance(start, ast.Constant) and isinstance(start.value, int) and not isinstance(start.value, bool)):
+            return None
+        items = [ast.Tuple(elts=[ast.Constant(k + start.value), e], ctx=ast.Load()) for k, e in enumerate(it.args[0].elts)]
     elif isinstance(it, ast.Call) and isinstance(it.func, ast.Attribute) and it.func.attr == "items" and isinstance(it.func.value, ast.Dict) \
             and all(k is not None for k in it.func.value.keys):
         items = [ast.Tuple(elts=[k, v], ctx=ast.Load()) for k, v in zip(it.func.value.keys, it.func.value.values)]
@@ -926,7 +974,48 @@ def inline_new_helpers(tree, ref_funcs, rel=None):
     all_funcs = dict(_iter_funcs(tree))
     new = {q: fn for q, fn in all_funcs.items() if q not in ref_funcs and q.split(".")[-1].startswith("_")
            and not q.split(".")[-1].startswith("__") and q.count(".") <= 1}
-    if not new:
+    # local helper functions: a def directly in the body of a function (a closure over the function's locals) that the reference
+    # does not have.  It can be undone when the name is bound exactly once in that function (the def, made unconditionally) and
+    # every mention of the name is a call of it - then each call runs this body, reading the enclosing locals as they are at
+    # the time of the call, which is what the inlined statements do
+    nested = {}
+    for q, fn in all_funcs.items():
+        if q in ref_funcs or "." not in q:
+            continue
+        pq = q.rsplit(".", 1)[0]
+        parent = all_funcs.get(pq)
+        if parent is None or pq in nested or fn.decorator_list:
+            continue
+        # the block of the enclosing function that holds the def (its body, or the body of an if / with / loop inside it)
+        holder = None
+        for blk_owner in ast.walk(parent):
+            if isinstance(blk_owner, (ast.FunctionDef, ast.AsyncFunctionDef, ast.ClassDef)) and blk_owner is not parent:
+                continue
+            for fld in ("body", "orelse", "finalbody"):
+                blk = getattr(blk_owner, fld, None)
+                if isinstance(blk, list) and any(x is fn for x in blk):
+                    holder = blk
+        if holder is None:
+            continue
+        if sum(1 for x in ast.walk(parent) if isinstance(x, (ast.FunctionDef, ast.AsyncFunctionDef, ast.ClassDef)) and x is not parent and x.name == fn.name) != 1:
+            continue
+        bound_other = any(isinstance(x, ast.Name) and x.id == fn.name and isinstance(x.ctx, (ast.Store, ast.Del)) for x in ast.walk(parent)) or \
+            any(isinstance(x, ast.arg) and x.arg == fn.name for x in ast.walk(parent)) or \
+            any(isinstance(x, (ast.Global, ast.Nonlocal)) and fn.name in x.names for x in ast.walk(parent))
+        if bound_other:
+            continue
+        called = {id(c.func) for c in ast.walk(parent) if isinstance(c, ast.Call) and isinstance(c.func, ast.Name) and c.func.id == fn.name}
+        if any(isinstance(x, ast.Name) and x.id == fn.name and id(x) not in called for x in ast.walk(parent)):
+            continue        # the function object escapes (passed on, stored): not only called here
+        if any(isinstance(x, ast.Name) and x.id == fn.name for x in ast.walk(fn)):
+            continue        # recursive
+        # the calls must come after the def in the same body (the name is unbound before)
+        k_def = next(i for i, x in enumerate(holder) if x is fn)
+        after = {id(x) for st in holder[k_def + 1:] for x in ast.walk(st)}
+        if any(isinstance(x, ast.Name) and x.id == fn.name and id(x) not in after for x in ast.walk(parent) if not any(x is y for y in ast.walk(fn))):
+            continue        # a mention outside the statements that follow the def in its block: the name may be unbound there
+        nested[q] = fn
+    if not new and not nested:
         return 0
     # the definition in force must be known: exactly one binding of the name in its scope, made unconditionally
     mod_counts = _scope_binding_counts(tree.body)
@@ -950,9 +1039,17 @@ def inline_new_helpers(tree, ref_funcs, rel=None):
     dynamic_setattr = any(isinstance(x, ast.Call) and isinstance(x.func, ast.Name) and x.func.id in ("setattr", "delattr") and len(x.args) >= 2
                           and not isinstance(x.args[1], ast.Constant) for x in ast.walk(tree))
     new = {q: fn for q, fn in new.items() if unique_def(q, fn)}
+    def tailable(fn):
+        """any control flow (loops, several returns) can be written in place of `return helper(..)`: its returns are the caller's"""
+        return not any(isinstance(n, (ast.Yield, ast.YieldFrom, ast.Await, ast.Global, ast.Nonlocal)) or
+                       (isinstance(n, (ast.FunctionDef, ast.AsyncFunctionDef, ast.Lambda, ast.ClassDef)) and n is not fn) for n in ast.walk(fn)) \
+            and not fn.decorator_list
     info = {}
     for q, fn in new.items():
         kind = _helper_kind(fn)
+        if kind is None and _simple_params(fn) is not None and tailable(fn) and "." not in q:
+            info[q] = (fn, "tail", None, False)
+            continue
         if kind is None or _simple_params(fn) is None:
             continue
         is_method = "." in q
@@ -970,6 +1067,22 @@ def inline_new_helpers(tree, ref_funcs, rel=None):
                 continue
             expr = sm.result if kind == "expr" else (list(sm.guards), sm.result)
         info[q] = (fn, kind, expr, is_method)
+    for q, fn in nested.items():
+        kind = _helper_kind(fn)
+        if kind is None or _simple_params(fn) is None:
+            continue
+        expr = None
+        if kind in ("expr", "guarded"):
+            try:
+                sm = summarize(fn)
+            except Exception:
+                continue
+            if sm.result is None or any(isinstance(n, ast.Name) and n.id.endswith("'") for n in ast.walk(sm.result)):
+                continue
+            if kind == "expr" and sm.guards:
+                continue
+            expr = sm.result if kind == "expr" else (list(sm.guards), sm.result)
+        info[q] = (fn, kind, expr, False)
     if not info:
         return 0
     count = 0
@@ -984,6 +1097,8 @@ def inline_new_helpers(tree, ref_funcs, rel=None):
         f = call.func
         if isinstance(f, ast.Name) and f.id in info and not info[f.id][3] and f.id not in scope["bound"]:
             return f.id, None
+        if isinstance(f, ast.Name) and scope.get("q") and f"{scope['q']}.{f.id}" in nested and f"{scope['q']}.{f.id}" in info:
+            return f"{scope['q']}.{f.id}", None
         if isinstance(f, ast.Attribute) and isinstance(f.value, ast.Name) and f.value.id == "self" and cls and f"{cls}.{f.attr}" in info \
                 and scope["self_ok"]:
             return f"{cls}.{f.attr}", f.value
@@ -1043,6 +1158,33 @@ def inline_new_helpers(tree, ref_funcs, rel=None):
                         new_stmts.append(ast.Assign(targets=copy.deepcopy(target), value=val))
                     else:
                         new_stmts.append(ast.Expr(value=val))
+                    for x in new_stmts:
+                        ast.copy_location(x, st)
+                        ast.fix_missing_locations(x)
+                    out.extend(new_stmts)
+                    count += 1
+                    continue
+            if k and info[k[0]][1] == "tail" and target == "return":
+                fn, _, _, is_method = info[k[0]]
+                m = _bind_call(fn, call, is_method)
+                body = [b for b in fn.body if not _is_doc(b)]
+                if m is not None:
+                    uid[0] += 1
+                    stores = _stores(body)
+                    fresh = {nm_: f"_h{uid[0]}_{nm_}" for nm_ in stores}
+                    pre, sub = [], {}
+                    for p, a in m.items():
+                        if p in stores:
+                            pre.append(ast.Assign(targets=[ast.Name(id=fresh[p], ctx=ast.Store())], value=copy.deepcopy(a)))
+                        elif isinstance(a, (ast.Name, ast.Constant)):
+                            sub[p] = a
+                        else:
+                            tmp = f"_h{uid[0]}_{p}"
+                            pre.append(ast.Assign(targets=[ast.Name(id=tmp, ctx=ast.Store())], value=copy.deepcopy(a)))
+                            sub[p] = ast.Name(id=tmp, ctx=ast.Load())
+                    new_stmts = list(pre) + [_subst(_rename(copy.deepcopy(b), fresh), sub) for b in body]
+                    if not isinstance(body[-1], (ast.Return, ast.Raise)):
+                        new_stmts.append(ast.Return(value=ast.Constant(None)))
                     for x in new_stmts:
                         ast.copy_location(x, st)
                         ast.fix_missing_locations(x)
@@ -1137,6 +1279,7 @@ def inline_new_helpers(tree, ref_funcs, rel=None):
         if q in info:
             continue
         cls = q.rsplit(".", 1)[0] if "." in q else None
+        scope["q"] = q
         scope["bound"] = set()
         for q2, f2 in all_funcs.items():
             if q2 == q or q.startswith(q2 + "."):
@@ -1387,8 +1530,9 @@ def inline_new_temps(tree, ref_mod, ctype=None):
             later_store = uses_outside or any(isinstance(x, ast.Name) and isinstance(x.ctx, (ast.Store, ast.Del)) and x.id in operands
                                               for st in region[:last_use + 1] for x in ast.walk(st))
             in_loop = False   # uses are confined to the statements following the definition in its own block
-            uses_before = any(isinstance(x, ast.Name) and isinstance(x.ctx, ast.Load) and x.id == nm
-                              and (x.lineno, x.col_offset) < (asg.lineno, asg.col_offset) for x in own)
+            # every read lies in the statements that follow the definition in its block (else `uses_outside`, refused above);
+            # source positions are not consulted: statements written by the helper pass all carry the position of the call
+            uses_before = False
             n_uses = sum(1 for x in own if isinstance(x, ast.Name) and x.id == nm and isinstance(x.ctx, ast.Load))
             # an object that is changed in place through the name (xs.append(..), xs[i] = .., xs += ..) is state, not a temporary
             mutated = False
@@ -1577,6 +1721,138 @@ def recover_private_params(tree, ref_params):
     return n
 
 
+def split_new_tuple_assignments(tree, known):
+    """undo 'several related assignments -> one tuple assignment': `a, b = x, y` that the reference does not have is written as
+    `a = x; b = y` when that is the same (plain names on the left, none of them read on the right: Python evaluates the
+    whole right side first)"""
+    n = 0
+    for q, fn in _iter_funcs(tree):
+        keep = set(known.get(q, []))
+        # the reference's own tuple assignments are recognised by their arity as well (their names may have been renamed)
+        keep_arity = {t.count(",") + 1 for t in keep}
+
+        def rewrite(block):
+            nonlocal n
+            out = []
+            for st in block:
+                for fld in ("body", "orelse", "finalbody"):
+                    if hasattr(st, fld) and isinstance(getattr(st, fld), list) and not isinstance(st, (ast.FunctionDef, ast.AsyncFunctionDef, ast.ClassDef)):
+                        setattr(st, fld, rewrite(getattr(st, fld)))
+                if isinstance(st, ast.Try):
+                    for h in st.handlers:
+                        h.body = rewrite(h.body)
+                if isinstance(st, ast.Assign) and len(st.targets) == 1 and isinstance(st.targets[0], (ast.Tuple, ast.List)) \
+                        and len(st.targets[0].elts) in keep_arity:
+                    out.append(st)
+                    continue
+                # `a, b, c = [f(v) for v in (x, y, z)]`: the comprehension over a literal table is its list of elements
+                if isinstance(st, ast.Assign) and len(st.targets) == 1 and isinstance(st.targets[0], (ast.Tuple, ast.List)) \
+                        and isinstance(st.value, (ast.ListComp, ast.GeneratorExp)) and len(st.value.generators) == 1 \
+                        and not st.value.generators[0].ifs and not st.value.generators[0].is_async \
+                        and isinstance(st.value.generators[0].iter, (ast.Tuple, ast.List)) \
+                        and len(st.value.generators[0].iter.elts) == len(st.targets[0].elts) and ast.unparse(st.targets[0]) not in keep:
+                    g_ = st.value.generators[0]
+                    subs_ = _literal_iter(ast.For(target=g_.target, iter=g_.iter, body=[ast.Pass()], orelse=[]))
+                    if subs_ is not None:
+                        st.value = ast.copy_location(ast.List(elts=[_subst(st.value.elt, m_) for m_ in subs_], ctx=ast.Load()), st.value)
+                if isinstance(st, ast.Assign) and len(st.targets) == 1 and isinstance(st.targets[0], (ast.Tuple, ast.List)) \
+                        and isinstance(st.value, (ast.Tuple, ast.List)) and len(st.targets[0].elts) == len(st.value.elts) \
+                        and all(isinstance(t, ast.Name) for t in st.targets[0].elts) \
+                        and not any(isinstance(v, ast.Starred) for v in st.value.elts) and ast.unparse(st.targets[0]) not in keep:
+                    tn = [t.id for t in st.targets[0].elts]
+                    # written one after the other, value j would see the new binding of an EARLIER target k < j: it must not read it
+                    # (its own old value and later targets are read before they are bound, as in the tuple form)
+                    if len(set(tn)) == len(tn) and \
+                            not any(isinstance(x, ast.Name) and x.id in tn[:j] for j, v in enumerate(st.value.elts) for x in ast.walk(v)):
+                        for t, v in zip(st.targets[0].elts, st.value.elts):
+                            a = ast.Assign(targets=[t], value=v)
+                            ast.copy_location(a, st)
+                            ast.fix_missing_locations(a)
+                            out.append(a)
+                        n += 1
+                        continue
+                out.append(st)
+            return out
+        fn.body[:] = rewrite(fn.body)
+    return n
+
+
+def hoist_walrus(tree):
+    """`if (x := e).any(): ..` -> `x = e` in front of the statement, when the assignment expression is the first thing the
+    statement evaluates (it sits on the left spine of the test / value: receiver, left operand, first argument), so that
+    nothing the statement does can come before it.  Not in `while` tests, `elif` arms are handled where they are nested."""
+    n = 0
+
+    def spine(e):
+        path = []
+        while True:
+            if isinstance(e, ast.NamedExpr):
+                return e, path
+            if isinstance(e, ast.Attribute):
+                path.append((e, "value")); e = e.value
+            elif isinstance(e, ast.Call):
+                if isinstance(e.func, ast.Attribute):
+                    path.append((e.func, "value")); e = e.func.value
+                elif isinstance(e.func, ast.Name) and e.args and not isinstance(e.args[0], ast.Starred):
+                    path.append((e, "arg0")); e = e.args[0]
+                else:
+                    return None, path
+            elif isinstance(e, ast.Compare):
+                path.append((e, "left")); e = e.left
+            elif isinstance(e, ast.BinOp):
+                path.append((e, "left")); e = e.left
+            elif isinstance(e, ast.Subscript):
+                path.append((e, "value")); e = e.value
+            elif isinstance(e, ast.UnaryOp):
+                path.append((e, "operand")); e = e.operand
+            elif isinstance(e, ast.BoolOp):
+                path.append((e, "values0")); e = e.values[0]
+            else:
+                return None, path
+
+    def rewrite(block):
+        nonlocal n
+        out = []
+        for st in block:
+            for fld in ("body", "orelse", "finalbody"):
+                if hasattr(st, fld) and isinstance(getattr(st, fld), list) and not isinstance(st, ast.ClassDef):
+                    setattr(st, fld, rewrite(getattr(st, fld)))
+            if isinstance(st, ast.Try):
+                for h in st.handlers:
+                    h.body = rewrite(h.body)
+            holder, field = None, None
+            if isinstance(st, ast.If):
+                holder, field = st, "test"
+            elif isinstance(st, (ast.Assign, ast.Return, ast.Expr, ast.AugAssign)) and getattr(st, "value", None) is not None:
+                holder, field = st, "value"
+            if holder is not None:
+                e = getattr(holder, field)
+                w, path = spine(e)
+                if w is not None and isinstance(w.target, ast.Name):
+                    name_ = ast.Name(id=w.target.id, ctx=ast.Load())
+                    if not path:
+                        setattr(holder, field, name_)
+                    else:
+                        parent, how = path[-1]
+                        if how == "arg0":
+                            parent.args[0] = name_
+                        elif how == "values0":
+                            parent.values[0] = name_
+                        else:
+                            setattr(parent, how, name_)
+                    a = ast.Assign(targets=[ast.Name(id=w.target.id, ctx=ast.Store())], value=w.value)
+                    ast.copy_location(a, st)
+                    ast.fix_missing_locations(a)
+                    out.append(a)
+                    n += 1
+            out.append(st)
+        return out
+    for q, fn in _iter_funcs(tree):
+        if any(isinstance(x, ast.NamedExpr) for x in ast.walk(fn)):
+            fn.body[:] = rewrite(fn.body)
+    return n
+
+
 def normalise(rel, tree, inv):
     """apply all undo-passes; `inv` is the reference inventory of the module (or None: nothing is new)"""
     if not inv:
@@ -1584,9 +1860,13 @@ def normalise(rel, tree, inv):
     done = {}
     if not inv.get("dict_comps"):
         _DictComp().visit(tree)      # comprehensions over literal tables become literals (so that a table built that way is a constant)
+    if any(isinstance(x, ast.NamedExpr) for x in ast.walk(tree)):
+        done["walrus"] = hoist_walrus(tree)
     done["private-params"] = recover_private_params(tree, inv.get("private_params", {}))
     done["constants"] = propagate_new_constants(tree, set(inv.get("globals", [])), rel)
     done["helpers"] = inline_new_helpers(tree, set(inv.get("functions", [])), rel)
+    if "tuple_assigns" in inv:
+        done["tuple-assignments"] = split_new_tuple_assignments(tree, inv.get("tuple_assigns", {}))
     done["loops"] = unroll_new_literal_loops(tree, inv.get("literal_loops", {}))
     done["comprehensions"] = expand_new_literal_comprehensions(tree, inv.get("literal_comps", {}))
     from . import localnames
@@ -1595,6 +1875,7 @@ def normalise(rel, tree, inv):
         _Getattr().visit(tree)
         done["dict-locals"] = scalarise_literal_dicts(tree)
         _Getattr().visit(tree)
+    done["default-keywords"] = drop_default_keywords(tree, localnames.table().get("__defaults__", {}), inv.get("call_keywords", {}))
     done["keywords"] = positionalise_new_keywords(tree, inv.get("call_positional", {}), localnames.table().get("__signatures__", {}),
                                                   inv.get("call_keywords", {}))
     _Getattr().visit(tree)
@@ -1629,6 +1910,18 @@ def expand_new_literal_comprehensions(tree, known):
                     tnames = {x.id for x in ast.walk(g.target) if isinstance(x, ast.Name)}
                     name = st.targets[0].id
                     uses_self = any(isinstance(x, ast.Name) and x.id == name for x in ast.walk(st.value))
+                    # a list that is only spread into calls (`f(*xs)`) is written as the literal list (the pass for temporaries and the
+                    # star rewrite then give `f(a, b, c)`)
+                    only_starred = not g.ifs and all(
+                        any(isinstance(p_, ast.Starred) and p_.value is x for c_ in ast.walk(fn) if isinstance(c_, ast.Call) for p_ in c_.args)
+                        for x in ast.walk(fn) if isinstance(x, ast.Name) and x.id == name and isinstance(x.ctx, ast.Load))
+                    if subs is not None and not uses_self and isinstance(g.iter, (ast.Tuple, ast.List)) and only_starred:
+                        lit_ = ast.Assign(targets=[ast.Name(id=name, ctx=ast.Store())], value=ast.List(elts=[_subst(st.value.elt, m) for m in subs], ctx=ast.Load()))
+                        ast.copy_location(lit_, st)
+                        ast.fix_missing_locations(lit_)
+                        out.append(lit_)
+                        n += 1
+                        continue
                     if subs is not None and not uses_self and isinstance(g.iter, (ast.Tuple, ast.List)):
                         new = [ast.Assign(targets=[ast.Name(id=name, ctx=ast.Store())], value=ast.List(elts=[], ctx=ast.Load()))]
                         for m in subs:
@@ -1712,6 +2005,11 @@ def scalarise_literal_dicts(tree):
     return n_done
 
 
+_REDUCE_OPS = {"operator.and_": ast.BitAnd, "operator.or_": ast.BitOr, "operator.xor": ast.BitXor, "operator.add": ast.Add,
+               "operator.mul": ast.Mult, "operator.matmul": ast.MatMult, "np.logical_and": None, "np.logical_or": None}
+_REDUCE_OPS = {k: v for k, v in _REDUCE_OPS.items() if v is not None}
+
+
 class _DictComp(ast.NodeTransformer):
     """{k: v for a, b in <literal pairs / literal dict>.items()} -> the dict literal (no condition, literal table)"""
 
@@ -1738,6 +2036,39 @@ class _DictComp(ast.NodeTransformer):
                 elts = [_subst(n.args[0].elt, m) for m in subs]
                 cls = ast.Tuple if n.func.id == "tuple" else ast.List
                 return ast.copy_location(cls(elts=elts, ctx=ast.Load()), n)
+        # any(c in value for c in (" ", "\t")) -> " " in value or "\t" in value (all -> and): for truth-valued elements the
+        # built-in and the operator give the same value and evaluate the same tests in the same order
+        if isinstance(n.func, ast.Name) and n.func.id in ("any", "all") and len(n.args) == 1 and not n.keywords \
+                and isinstance(n.args[0], (ast.GeneratorExp, ast.ListComp)) and len(n.args[0].generators) == 1 \
+                and not n.args[0].generators[0].ifs and not n.args[0].generators[0].is_async \
+                and isinstance(n.args[0].generators[0].iter, (ast.Tuple, ast.List)) and len(n.args[0].generators[0].iter.elts) >= 2:
+            g = n.args[0].generators[0]
+            elt = n.args[0].elt
+            truthy = isinstance(elt, ast.Compare) or isinstance(elt, ast.UnaryOp) and isinstance(elt.op, ast.Not) or \
+                isinstance(elt, ast.Call) and (isinstance(elt.func, ast.Attribute) and elt.func.attr in ("startswith", "endswith", "isdigit", "isalpha", "isspace")
+                                               or isinstance(elt.func, ast.Name) and elt.func.id in ("isinstance", "callable", "hasattr"))
+            subs = _literal_iter(ast.For(target=g.target, iter=g.iter, body=[ast.Pass()], orelse=[]))
+            if subs is not None and truthy:
+                return ast.copy_location(ast.BoolOp(op=ast.Or() if n.func.id == "any" else ast.And(), values=[_subst(elt, m) for m in subs]), n)
+        # functools.reduce(operator.and_, (f(i, j) for i, j in ((0, 1), (0, 2), (1, 2)))) -> f(0, 1) & f(0, 2) & f(1, 2)
+        # (left fold, no initial value, at least one item: exactly what reduce computes)
+        fn = ast.unparse(n.func)
+        if fn in ("functools.reduce", "reduce") and len(n.args) == 2 and not n.keywords and ast.unparse(n.args[0]) in _REDUCE_OPS:
+            seq = n.args[1]
+            elts = None
+            if isinstance(seq, (ast.Tuple, ast.List)) and not any(isinstance(x, ast.Starred) for x in seq.elts):
+                elts = list(seq.elts)
+            elif isinstance(seq, (ast.GeneratorExp, ast.ListComp)) and len(seq.generators) == 1 and not seq.generators[0].ifs \
+                    and not seq.generators[0].is_async and isinstance(seq.generators[0].iter, (ast.Tuple, ast.List)):
+                g = seq.generators[0]
+                subs = _literal_iter(ast.For(target=g.target, iter=g.iter, body=[ast.Pass()], orelse=[]))
+                if subs is not None:
+                    elts = [_subst(seq.elt, m) for m in subs]
+            if elts:
+                acc = elts[0]
+                for e in elts[1:]:
+                    acc = ast.BinOp(left=acc, op=_REDUCE_OPS[ast.unparse(n.args[0])](), right=e)
+                return ast.copy_location(acc, n)
         return n
 
 
